@@ -143,6 +143,7 @@ structure Inst where
   out : Out := .ret
   fwdDone : Bool := false            -- forwarding instance has issued its dispatch
   iters : Nat := 0                   -- iterations of the inline polling loop of the current await
+  cancelling : Bool := false         -- the handler task has been cancelled (deadline / executor cancelled); the body may still clean up
   deriving Repr, Inhabited
 
 /-- control state of an external task blocked in one of the bus's blocking calls -/
